@@ -372,6 +372,33 @@ pub fn insglue() -> bool {
             bad = true;
         }
     }
+    // ---- (1c) the policy is changed while the replica is open: the next remote event follows the NEW policy
+    {
+        let mut store = Store::memory();
+        store.import_namespace(ns.clone().into()).unwrap();
+        store.set_download_policy(&nsid, DownloadPolicy::NothingExcept(vec![FilterKind::Prefix("a/".into())])).unwrap();
+        let mut flags = vec![];
+        {
+            let mut replica = store.open_replica(&nsid).unwrap();
+            let (tx, rx) = async_channel::bounded(16);
+            replica.info.subscribe(tx);
+            block_on(replica.insert_remote_entry(mk(b"a/1", Record::new(Hash::new(b"1"), 1, now - 9)), [7u8; 32], ContentStatus::Complete)).unwrap();
+            // the store is reachable through the replica: same object the actor writes the policy to
+            replica.store.store.set_download_policy(&nsid, DownloadPolicy::NothingExcept(vec![FilterKind::Prefix("b/".into())])).unwrap();
+            block_on(replica.insert_remote_entry(mk(b"a/2", Record::new(Hash::new(b"2"), 1, now - 8)), [7u8; 32], ContentStatus::Complete)).unwrap();
+            block_on(replica.insert_remote_entry(mk(b"b/1", Record::new(Hash::new(b"3"), 1, now - 7)), [7u8; 32], ContentStatus::Complete)).unwrap();
+            while let Ok(ev) = rx.try_recv() {
+                if let Event::RemoteInsert { entry, should_download, .. } = ev {
+                    flags.push((entry.key().to_vec(), should_download));
+                }
+            }
+        }
+        let want = vec![(b"a/1".to_vec(), true), (b"a/2".to_vec(), false), (b"b/1".to_vec(), true)];
+        if flags != want {
+            eprintln!("insglue: download flags after the policy changed while the replica was open: {:?}, expected {:?}", flags, want);
+            bad = true;
+        }
+    }
     // ---- (2) read-only replica
     {
         let mut store = Store::memory();
@@ -619,6 +646,7 @@ pub fn run(id: &str) -> Option<bool> {
         "c11live" => crate::engine::verif_live::witness_c11live(),
         "c09frame" => crate::net::verif_codec::witness_c09frame(),
         "c10steps" => crate::net::verif_codec::witness_c10steps(),
+        "c10accept" => crate::net::verif_codec::witness_c10accept(),
         "c18" => crate::store::fs::verif_incrate::witness_c18::run(),
         "c06" => crate::store::fs::verif_incrate::witness_c06::run(),
         "c06dur" => crate::store::fs::verif_incrate::witness_c06dur::run(),
